@@ -43,6 +43,7 @@ BCSTMT = 'starlark/src/eval/bc/compiler/stmt.rs'
 LISTM = 'starlark/src/values/types/list/methods.rs'
 AMOD = 'starlark/src/eval/bc/compiler/assign_modify.rs'
 BCCALL = 'starlark/src/eval/bc/compiler/call.rs'
+VECMAP = 'starlark_map/src/vec_map.rs'
 RNGG = 'starlark/src/values/types/range/globals.rs'
 
 # (unit, file, old, new, expected obligation substring)
@@ -175,6 +176,9 @@ MUTANTS = [
     ('int', BIG, '            Some(other) => Ok(NumRef::Int(StarlarkIntRef::Big(self)).cmp(&other)),', '            Some(other) => Ok(other.cmp(&NumRef::Int(StarlarkIntRef::Big(self)))),', 'C09.value.big.compare'),
     ('slots', EVL, '        let value_captured = value_captured_get(value_captured);\n        value_captured\n            .ok_or_else(|| self.local_var_referenced_before_assignment(LocalSlotId(slot.0)))', '        Ok(value_captured_get(value_captured).expect("captured slot is assigned"))', 'get_slot_local_captured'),
     ('slots', EVL, '        let value_captured = self.get_slot_local(self.current_frame, LocalSlotId(slot.0))?;', '        let value_captured = self.get_slot_local(self.current_frame, LocalSlotId(slot.0 + 1))?;', 'get_slot_local_captured'),
+    ('vecmap', VECMAP, '        let ((key, value), hash) = self.buckets.remove(index);', '        let ((key, value), hash) = self.buckets.remove(0);', 'C11.vecmap.remove'),
+    ('vecmap', VECMAP, '        let ((key, value), hash) = self.buckets.pop()?;\n        Some((Hashed::new_unchecked(hash, key), value))', '        let ((key, value), hash) = self.buckets.remove(0);\n        Some((Hashed::new_unchecked(hash, key), value))', 'pop'),
+    ('vecmap', VECMAP, '        self.buckets.push((key.into_key(), value), hash);', '        self.buckets.push((key.into_key(), value), StarlarkHashValue(0));', 'C11.vecmap.insert_appends'),
     ('calls', INSTR, '        eval.with_call_stack(self.to_value(), Some(location), |eval| {\n            self.invoke(args, eval)\n        })', '        self.invoke(args, eval)', 'bc_invoke'),
     ('calls', 'starlark/src/values/layout/value.rs', '        eval.with_call_stack(self, location, |eval| {\n            self.get_ref_full().invoke(args, eval)\n        })', '        self.get_ref_full().invoke(args, eval)', 'invoke_with_loc'),
     ('strindex', STRT, 'let ind = CharIndex(i.unsigned_abs() as usize);', 'let ind = CharIndex((-i) as usize);', 'at'),
